@@ -152,6 +152,7 @@ type c09DocGen struct {
 	tmplP          int             // probability (percent) of inserting a region where one is allowed
 	allow          map[string]bool // contexts in which regions may be inserted (nil: all)
 	quoteInForeign bool            // svg/math content may contain a lone double quote (oracle only)
+	loose          bool            // correspondence only: keep constructs whose content contains its own terminator etc. (exp is then meaningless)
 }
 
 var c09RawNames = []string{"script", "style", "title", "textarea", "xmp", "iframe"}
@@ -374,7 +375,9 @@ func (g *c09DocGen) comment() {
 	}
 	// the body must not contain a terminator
 	body := g.buf[start+4:]
-	if bytes.Contains(append(append([]byte{}, body...), "-->"...)[:len(body)+2], []byte("-->")) || bytes.Contains(append(append([]byte{}, body...), "--!>"...)[:len(body)+3], []byte("--!>")) || g.hasRegionHazard(start+4, []string{"-->", "--!>"}) {
+	if g.loose {
+		// keep whatever was generated
+	} else if bytes.Contains(append(append([]byte{}, body...), "-->"...)[:len(body)+2], []byte("-->")) || bytes.Contains(append(append([]byte{}, body...), "--!>"...)[:len(body)+3], []byte("--!>")) || g.hasRegionHazard(start+4, []string{"-->", "--!>"}) {
 		// keep it simple: replace by a safe body (regions are kept only if the body stayed clean)
 		g.dropRegionsFrom(start)
 		g.buf = append(g.buf[:start+4], " c "...)
@@ -444,7 +447,7 @@ func (g *c09DocGen) cdata() {
 	for i := 0; i < n; i++ {
 		g.buf = append(g.buf, g.r.PickStr([]string{"a", "]", " ", "<b>", "]>", ">", "x"})...)
 	}
-	if bytes.Contains(g.buf[start+9:], []byte("]]")) {
+	if !g.loose && bytes.Contains(g.buf[start+9:], []byte("]]")) {
 		g.buf = append(g.buf[:start+9], "d"...)
 	}
 	if g.maybeRegion("cdata", []string{"]]>"}) {
@@ -591,7 +594,7 @@ func (g *c09DocGen) openTag(name string, allowVoid bool) bool {
 	lastUnq := g.attrs()
 	void := allowVoid && g.r.Chance(1, 4)
 	w := g.ws(0)
-	if void && lastUnq && w == "" {
+	if void && lastUnq && w == "" && !g.loose {
 		w = " "
 	}
 	g.buf = append(g.buf, w...)
@@ -724,7 +727,7 @@ func (g *c09DocGen) rawElement() {
 	if lname == "script" && ok {
 		ok = c09ScriptContentSafe(content)
 	}
-	if !ok {
+	if !ok && !g.loose {
 		g.regs = g.regs[:nregs]
 		g.buf = append(g.buf[:start], "/* c */"...)
 	}
@@ -924,6 +927,20 @@ func c09MutateDoc(r *Rng, d []byte) []byte {
 	return d
 }
 
+var c09Tricky = []string{
+	"<a b=c/>", "<a b=c />", "<a/b>", "<a / >", "<a/>", "<a /x>", "</a/>", "</a b='c'>", "<a b='c'd>", "<a b=\"c\"/>", "<a b = c>", "<a b\t=\nc>", "<a b=>", "<a =b>", "<a b==c>",
+	"<a b='c", "<a b=\"c", "<a b=c", "<a b", "<a ", "<a", "<", "</", "</>", "</ >", "</a", "</a ", "<!", "<!-", "<!--", "<!-->", "<!--->", "<!---->", "<!--a--!>b", "<!--a--!", "<!--a-->b", "<!--a--b-->",
+	"<!doctype", "<!DOCTYPE html>", "<!doctypehtml>", "<!doctype  html>", "<!DocType>", "<!doctyp>", "<![CDATA[", "<![CDATA[]]>", "<![CDATA[]]", "<![CDATA[a]]]>b", "<![cdata[a]]>", "<?php x ?>", "<?>", "<?",
+	"<script></SCRIPT>", "<SCRIPT>a</script >", "<script></scriptx></script>", "<script></script-x></script>", "<script><!--<script></script>--></script>", "<script><!--</script>", "<script><!--<script>x</script>y</script>",
+	"<script><!--<SCRIPT ></ScRiPt>--></script>", "<script><!-->x</script>", "<script><!--->x</script>", "<script><!--<scriptx></script>", "<script><!--<script</script>", "<script>a<b</script>", "<script/>a</script>",
+	"<style></style>", "<style>a</STYLE\n>b", "<title></title-x>b</title>", "<textarea></textarea x>", "<xmp><b></xmp>", "<iframe></iframes></iframe>", "<plaintext>a</plaintext><b>", "<PlainText/>x",
+	"<svg></SVG>", "<svg><path d=\"</svg>\"/></svg>x", "<svg>\"</svg>", "<svg></svgx></svg >", "<svg", "<svg>", "<svg></svg", "<svg>\x00</svg><svg></svg>x<math></math>", "<math></MATH>", "<xml></xml>", "<svgx></svgx>",
+	"a<b", "a< b", "a<", "a<1", "<a>\x00</a>", "\x00", "a\x00<b>\x00</b>", "<a\x00b=c\x00>", "</a\x00>", "<a b='\x00'>", "</\x00", "</\x00>", "<\x00",
+	"</A B=C>", "<A B=C>", "<a B>", "</a\r>", "</a\f>", "</a \t\n\r>", "<a\fb\f=\fc\f>", "<a b='c'\f/>",
+	"{{x}}", "a{{x}}b", "{{", "{{\"}}\"}}", "{{'\\'}}'}}", "{{\"\\\\\"}}", "<a{{x}}>", "<a {{x}}={{y}}>", "<a b={{y}}{{z}}c>", "<a b=\"{{\"}}\"{{x}}>", "<a b='c'{{x}}>", "<script>{{\"</script>\"}}</script>",
+	"<%x%>", "a<%x%>b", "<a<%x%>>", "<a b=<%x%>>", "<script><%\"</script>\"%></script>", "<?x?>", "a<?x?>b", "<a <?x?>>", "<!--{{x}}-->", "</a{{x}}>", "<svg>{{x}}</svg>",
+}
+
 // symbol alphabet of the exhaustive enumeration; B/E stand for the delimiter pair (or '{' '}' without templates)
 func c09Symbols(tb, te string) []string {
 	b, e := "{", "}"
@@ -960,6 +977,12 @@ var c09Model = &Model{
 				emit(c09Case(tk.k, d, 2, ""))
 			})
 		}
+		// fixed cases: one per branch / boundary that a one-line change of lex.go is likely to move
+		for _, f := range c09Tricky {
+			for _, tk := range c09TmplKinds {
+				emit(c09Case(tk.k, []byte(f), 2, ""))
+			}
+		}
 		// (b) structured documents, (c) malformed
 		n := 6000
 		if tier == "thorough" {
@@ -973,7 +996,8 @@ var c09Model = &Model{
 			} else if k == 4 {
 				k = 4 + r.Intn(2)
 			}
-			g := c09GenDoc(r, tk.tb, tk.te, 1+r.Intn(5), 40)
+			g := &c09DocGen{r: r, tb: tk.tb, te: tk.te, exact: true, tmplP: 40, loose: i%2 == 0, quoteInForeign: i%5 == 0}
+			c09BuildDoc(g, 1+r.Intn(5))
 			d := g.buf
 			if i%3 == 2 {
 				d = c09MutateDoc(r, d)
